@@ -132,7 +132,7 @@ def core(ctx, lib, basis, M, rmse, keys, counts, extra, Ts, label, perm):
             for X in PROPS:
                 got = quiet(getattr(est_k, 'get_%s_SE' % X), T)
                 ctx.count()
-                if abs(got - abs(k) * base[X]) > 1e-10 * abs(k) * base[X] + 1e-300:
+                if abs(got - abs(k) * base[X]) > 1e-10 * abs(k) * base[X] + 1e-100:   # (same underflow floor as above)
                     ctx.fail('SE-scaling', '[%s] SE_%s(%r * x) = %r, |k| * SE(x) = %r' % (label, X, k, got, abs(k) * base[X]))
                     return
         except Exception as e:
